@@ -422,7 +422,10 @@ def gen_pat(rng, depth, st):
         first = ['bind', a]
         if rng.random() < 0.3:      # the outer pattern delays itself: its input events are the inner pattern's outputs
             first = ['delta', rng.choice([F('1/2'), F(1), I(1), F(0)]), first]
-        return ['chain', [first, ['bind', b]] + ([['bind', gen_kvs(rng, rests=False)]] if rng.random() < 0.2 else [])]
+        more = [['bind', gen_kvs(rng, rests=False)] for _ in range(rng.choice([0, 0, 1, 1, 2]))]
+        if more and rng.random() < 0.3:
+            return ['chain', [['chain', [first, ['bind', b]]]] + more]      # a chain of a chain
+        return ['chain', [first, ['bind', b]] + more]
     if r < 0.82:
         return ['delta', rng.choice([F('1/2'), F(1), I(1), F(0), I(0), F('1/4'), R('1/2'), R(1)]), gen_pat(rng, depth - 1, st)]
     d = rng.choice([F('3/2'), F(1), I(2), F('5/4'), F(3), I(1), F('1/2'), F(0), I(0)])
@@ -667,16 +670,22 @@ def gen_cases(ctx):
     cases = [c for _, c in battery() if c['kind'] != 'scale']
     if os.path.exists(CORPUS):
         cases += json.load(open(CORPUS))
-    cases += [gen_keys_case(ctx.rng) for _ in range(ctx.n(400, 5000))]
-    cases += [gen_keys_zero_case(ctx.rng) for _ in range(ctx.n(200, 2000))]
-    pats = [gen_pat_case(ctx.rng) for _ in range(ctx.n(400, 5000))]
-    pats += [gen_ctl_case(ctx.rng) for _ in range(ctx.n(120, 1500))]
+    def forms(case):
+        # alternative entry points (Pchain.chain(), mappings as pairs, event(**kw), EventStreamPlayer(...), base.play ...):
+        # chosen by the runner from this seed; the model has ONE form
+        if ctx.rng.random() < 0.6:
+            case['form_seed'] = ctx.rng.randrange(1 << 30)
+        return case
+    cases += [forms(gen_keys_case(ctx.rng)) for _ in range(ctx.n(400, 5000))]
+    cases += [forms(gen_keys_zero_case(ctx.rng)) for _ in range(ctx.n(200, 2000))]
+    pats = [forms(gen_pat_case(ctx.rng)) for _ in range(ctx.n(400, 5000))]
+    pats += [forms(gen_ctl_case(ctx.rng)) for _ in range(ctx.n(120, 1500))]
     # raising events are interleaved with ordinary cases of the same process: state leaked by the failure would
     # show in the cases that follow
     for _ in range(ctx.n(40, 400)):
         pats.insert(ctx.rng.randrange(len(pats)), gen_raise_case(ctx.rng))
     cases += pats
-    cases += [gen_replay_case(ctx.rng) for _ in range(ctx.n(150, 1500))]
+    cases += [forms(gen_replay_case(ctx.rng)) for _ in range(ctx.n(150, 1500))]
     cases += [gen_alias_case(ctx.rng) for _ in range(ctx.n(60, 600))]
     for g in range(ctx.n(30, 300)):
         cases += gen_twice_group(ctx.rng, g)
@@ -739,6 +748,8 @@ def correspond(ctx):
     res = run_impl(ctx, cases)
     keep, items, groups = [], [], {}
     for k, r in zip(cases, res):
+        for fm in r.get('forms', []) if isinstance(r, dict) else []:
+            c.count('entry-point:' + fm)
         if 'runner_error' in r:
             c.failures.append(Failure('correspondence', 'implementation runner could not run a case: ' + r['runner_error'],
                                       replay={'case': k}))
@@ -857,7 +868,7 @@ def correspond(ctx):
                 'correspondence',
                 'model (event.py/eventstream.py/filterpatterns.py/scale.py with the C14 fixes) and implementation disagree on a %s case%s' % (
                     k['kind'], ' -- the implementation behaves exactly like the model of the code as released' if follows else ''),
-                replay={'case': k, 'impl': r.get('vals') or r.get('msgs'), 'impl_errors': r.get('errors'),
+                replay={'case': k, 'impl': r.get('vals') or r.get('msgs'), 'impl_errors': r.get('errors'), 'entry_points_used': r.get('forms'),
                         'follows_unpatched_model': follows}))
     ctx.c14 = (cases, res)
     return c
